@@ -45,6 +45,7 @@ struct Cfg {
     malformed_replies: bool,
     repliers_leave: bool,
     profiles: Vec<u8>,
+    prefill: usize,
 }
 
 fn plan(profile: u8) -> SinkPlan {
@@ -60,6 +61,7 @@ fn plan(profile: u8) -> SinkPlan {
 
 fn gen_cfg(rng: &mut Rng, family: &str) -> Cfg {
     let (n_reqs, n_reps) = match family {
+        "burst" => (rng.range(1, 70) as usize, rng.below(3) as usize),
         "c02" => (rng.range(1, 4) as usize, 1),
         "c08" => (rng.range(1, 3) as usize, rng.range(1, 3) as usize),
         "c09" => (rng.below(4) as usize, rng.below(3) as usize),
@@ -67,18 +69,19 @@ fn gen_cfg(rng: &mut Rng, family: &str) -> Cfg {
         "c11" => (rng.range(1, 3) as usize, rng.range(1, 2) as usize),
         _ => (rng.below(3) as usize, rng.below(3) as usize),
     };
-    let steps = rng.range(10, 90) as usize;
+    let steps = if family == "burst" { rng.range(40, 300) as usize } else { rng.range(10, 90) as usize };
     let profiles = (0..n_reqs + n_reps)
         .map(|_| if rng.pct(35) { 0 } else { rng.range(1, 5) as u8 })
         .collect();
     Cfg {
         n_reqs,
         n_reps,
-        requests: (0..n_reqs).map(|_| rng.below(6) as u32).collect(),
+        requests: (0..n_reqs).map(|_| if family == "burst" { (rng.below(5) == 0) as u32 } else { rng.below(6) as u32 }).collect(),
         steps,
         spurious: matches!(family, "c02" | "c08" | "c11" | "c10") && rng.pct(25),
         close_at: match family {
             "c16" => Some(rng.usize(steps)),
+            "burst" if rng.pct(50) => Some(rng.usize(steps)),
             "c09" if rng.pct(25) => Some(rng.usize(steps)),
             _ => None,
         },
@@ -89,6 +92,7 @@ fn gen_cfg(rng: &mut Rng, family: &str) -> Cfg {
         malformed_replies: matches!(family, "c02" | "c11" | "c08") && rng.pct(70),
         repliers_leave: matches!(family, "c10" | "c08" | "c09" | "c16"),
         profiles,
+        prefill: if family == "burst" && rng.pct(60) { rng.usize(n_reqs + n_reps + 1) } else { 0 },
     }
 }
 
@@ -1169,6 +1173,14 @@ pub fn run(seed: u64, family: &str, keep_dump: bool) -> RunResult {
         sim.new_peer(Kind::Replier, cfg.profiles[cfg.n_reqs + j], fault, cfg.hostile);
     }
     let mut remaining: HashMap<usize, u32> = sim.reqs.iter().copied().zip(cfg.requests.iter().copied()).collect();
+    if cfg.prefill > 0 {
+        let mut all: Vec<usize> = sim.reqs.iter().chain(sim.reps.iter()).copied().collect();
+        for _ in 0..cfg.prefill.min(all.len()) {
+            let k = sim.rng.usize(all.len());
+            let p = all.swap_remove(k);
+            sim.register(p);
+        }
+    }
     let mut big_left = if cfg.hostile { 2 } else { 0 };
 
     #[derive(Clone, Copy, Debug)]
@@ -1421,7 +1433,7 @@ pub fn run(seed: u64, family: &str, keep_dump: bool) -> RunResult {
         "engine": "routersim/reqrep", "family": family, "seed": seed,
         "n_requestors": cfg.n_reqs, "n_repliers": cfg.n_reps, "requests": cfg.requests, "steps": cfg.steps,
         "spurious_polls": cfg.spurious, "close_at": cfg.close_at, "close_at_end": cfg.close_at_end,
-        "faults": cfg.faults, "hostile": cfg.hostile, "profiles": cfg.profiles,
+        "faults": cfg.faults, "hostile": cfg.hostile, "profiles": cfg.profiles, "registrations_queued_before_first_poll": cfg.prefill,
     });
     let dump = if keep_dump || !sim.findings.is_empty() {
         Some(dump_world(&w, 500))
